@@ -1,0 +1,77 @@
+//go:build verif
+
+// Contracts for the verification engine in /verif (govc). This file contains comments only:
+// it adds no code with or without the build tag "verif". Syntax: /verif/DESIGN.md section 3.2.
+// Strings are abstract: cat(...) is concatenation, dec(n) the decimal rendering of an integer.
+
+package model
+
+// ---- metadata path builders: each path is exactly the documented concatenation (C20) -------------
+//@ func getArchivePathToBundles
+//@   ensures result == "bundles/"
+//@ func getArchivePathToLabels
+//@   ensures result == "labels/"
+//@ func getArchivePathToRepos
+//@   ensures result == "repos/"
+//@ func getArchivePathToDiamonds
+//@   ensures result == "diamonds/"
+
+//@ func GetArchivePathToRepoDescriptor
+//@   ensures result == cat("repos/", repo, "/", "repo.yaml")
+//@ func GetArchivePathToBundle
+//@   ensures result == cat("bundles/", repo, "/", bundleID, "/", "bundle.yaml")
+//@ func GetArchivePathPrefixToBundles
+//@   ensures result == cat("bundles/", repo + "/")
+//@ func GetArchivePathToBundleFileList
+//@   ensures result == cat("bundles/", repo, "/", bundleID, "/", "bundle-files-", dec(index), ".yaml")
+//@ func GetArchivePathToLabel
+//@   call GetArchivePathPrefixToLabels#1 assert [of-repo] $repo == repo && len($prefixes) == 0
+//@   call GetArchivePathPrefixToLabels#1 bind pfx = $ret0
+//@   ensures pfx_set && result == cat(pfx, labelName, "/", "label.yaml")
+
+// the descriptor of a diamond / split is diamond-running.yaml only in the initial state and
+// diamond-done.yaml in every other (done, canceled) state
+//@ func GetArchivePathToDiamond
+//@   ensures [initial] state == DiamondInitialized ==> result == cat("diamonds/", repo, "/", diamondID, "/", "diamond-" + "running" + ".yaml")
+//@   ensures [final] state != DiamondInitialized ==> result == cat("diamonds/", repo, "/", diamondID, "/", "diamond-" + "done" + ".yaml")
+//@ func GetArchivePathToSplit
+//@   ensures [running] state == SplitRunning ==> result == cat("diamonds/", repo, "/", diamondID, "/", "splits", "/", splitID, "/", "split-" + "running" + ".yaml")
+//@   ensures [final] state != SplitRunning ==> result == cat("diamonds/", repo, "/", diamondID, "/", "splits", "/", splitID, "/", "split-" + "done" + ".yaml")
+//@ func GetArchivePathToFinalDiamond
+//@   ensures result == cat("diamonds/", repo, "/", diamondID, "/", "diamond-done.yaml")
+//@ func GetArchivePathToInitialDiamond
+//@   ensures result == cat("diamonds/", repo, "/", diamondID, "/", "diamond-running.yaml")
+//@ func GetArchivePathToFinalSplit
+//@   ensures result == cat("diamonds/", repo, "/", diamondID, "/", "splits", "/", splitID, "/", "split-done.yaml")
+//@ func GetArchivePathToInitialSplit
+//@   ensures result == cat("diamonds/", repo, "/", diamondID, "/", "splits", "/", splitID, "/", "split-running.yaml")
+//@ func GetArchivePathPrefixToSplits
+//@   ensures result == cat("diamonds/", repo, "/", diamondID, "/", "splits", "/")
+//@ func GetArchivePathToSplitFileList
+//@   ensures result == cat("diamonds/", repo, "/", diamondID, "/", "splits", "/", splitID, "/", generationID, "/", "bundle-files-", dec(index), ".yaml")
+
+// ---- name validation (C20): a rune is accepted iff digit, letter, hyphen (or connector
+// punctuation for labels); the error is raised only for a rune in none of the classes ------------
+//@ func ValidateLabel
+//@   call IsDigit#1 assert [of-rune] $0 == c
+//@   call IsLetter#1 assert [of-rune] $0 == c
+//@   call Is#1 assert [hyphen] $1 == c
+//@   call Is#2 assert [connector] $1 == c
+//@   call IsDigit#1 bind d = $ret0
+//@   call IsLetter#1 bind l = $ret0
+//@   call Is#1 bind h = $ret0
+//@   call Is#2 bind p = $ret0
+//@   call Errorf#3 assert [rejects-only-bad] d_set && !d && l_set && !l && h_set && !h && p_set && !p
+//@   loop 1 invariant [good-rune] d_set ==> (d || (l_set && l) || (h_set && h) || (p_set && p))
+//@   ensures [non-empty] ret0 == nil ==> label.Name != "" && label.BundleID != ""
+
+//@ func ValidateRepo
+//@   call IsDigit#1 assert [of-rune] $0 == c
+//@   call IsLetter#1 assert [of-rune] $0 == c
+//@   call Is#1 assert [hyphen] $1 == c
+//@   call IsDigit#1 bind d = $ret0
+//@   call IsLetter#1 bind l = $ret0
+//@   call Is#1 bind h = $ret0
+//@   call Errorf#3 assert [rejects-only-bad] d_set && !d && l_set && !l && h_set && !h
+//@   loop 1 invariant [good-rune] d_set ==> (d || (l_set && l) || (h_set && h))
+//@   ensures [non-empty] ret0 == nil ==> repo.Name != "" && repo.Description != ""
